@@ -8,7 +8,7 @@ CONSTANTS
   DescIds = {"d1", "d2"}
   MaxBases = 2
   MaxMuts = 2
-  MaxLevel = 6
+  MaxLevel = 5
 CONSTRAINT Bound
 INVARIANT TypeOK
 INVARIANT Functional
